@@ -241,9 +241,18 @@ class ScriptedWS:
         return CM()
 
 
-def make_client(pkg, cfg: Dict[str, Any], server: RefServer, tracer=None):
+def client_class(pkg, cfg: Dict[str, Any]):
+    """The generated client class; looked up in the client module when __init__ does not re-export it (NoReimports)."""
     client_name = cfg.get("client_name", "Client")
-    cls = getattr(pkg, client_name)
+    cls = getattr(pkg, client_name, None)
+    if cls is None:
+        mod = importlib.import_module("%s.%s" % (pkg.__name__, cfg.get("client_file_name", "client")))
+        cls = getattr(mod, client_name)
+    return cls
+
+
+def make_client(pkg, cfg: Dict[str, Any], server: RefServer, tracer=None):
+    cls = client_class(pkg, cfg)
     is_async = cfg.get("async_client", True)
     if is_async:
         http = httpx.AsyncClient(transport=httpx.MockTransport(server.async_handler))
@@ -275,7 +284,7 @@ def call_method(client, is_async: bool, name: str, kwargs: Dict[str, Any]):
 
 def find_methods(pkg, cfg: Dict[str, Any], op_names: List[str]) -> Dict[str, str]:
     """operation name -> client method name, found by observation: the method whose code carries the operation name constant."""
-    cls = getattr(pkg, cfg.get("client_name", "Client"))
+    cls = client_class(pkg, cfg)
     out: Dict[str, str] = {}
     for mname, fn in vars(cls).items():
         code = getattr(fn, "__code__", None)
@@ -348,3 +357,22 @@ def probe_param_map(client, is_async: bool, mname: str, server: RefServer, is_su
     sent = bodies[0].get("variables") or {}
     inv = {v: k for k, v in markers.items()}
     return {g: inv[val] for g, val in sent.items() if isinstance(val, str) and val in inv}
+
+
+def generate_in_subprocess(root: Path, strategy: str, cfg: Dict[str, Any]) -> Dict[str, Any]:
+    """Run one generation in its own fork (plugins mutate module-level AST constants of the generator in place, which is
+    harmless for a CLI run and would be a manufactured history-dependence if several generations shared a process)."""
+
+    def job(_):
+        import warnings
+        with warnings.catch_warnings():
+            warnings.simplefilter("ignore")
+            g = run_cli(root, strategy, cfg)
+        return core.CaseResult("held" if g.ok else "violated", stats={}, sample={
+            "ok": g.ok, "exc_type": g.exc_type, "exc": str(g.exception)[:400] if g.exception is not None else "", "exc_is_codegen": g.exc_is_codegen,
+            "traceback": g.traceback[-1200:], "reported_files": g.reported_files, "package_dir": str(g.package_dir), "stdout": g.stdout[-400:]})
+
+    res = core.run_forked([None], job, workers=1, timeout_s=170)[0]
+    if res.sample is None:
+        return {"ok": False, "exc_type": "HarnessFailure", "exc": res.note, "exc_is_codegen": False, "traceback": res.note, "reported_files": [], "package_dir": "", "stdout": ""}
+    return res.sample
